@@ -4,5 +4,7 @@ open Emboss.View
 #print axioms C04_accesses_in_bounds
 #print axioms C04_window_is_slice
 #print axioms C04_bitblock_reads_in_bounds
-#print axioms C04_null_byte_orderer_counterexample
-#print axioms C04_virtual_write_overflow_counterexample
+#print axioms C04_virtual_write_checked_no_overflow
+#print axioms C04_arith_no_overflow
+#print axioms Emboss.Bounds.C04_no_overflow
+#print axioms Emboss.Bounds.C04_choice_static_assert_counterexample
